@@ -350,3 +350,20 @@ def coq_strings(exprs, name, shard=60, timeout=300, imports=IMPORTS):
             o = o[:-7]
         res.append(o.strip().strip('"'))
     return res
+
+
+def front_end_types(types):
+    """the compiler's own VyperType objects for the given type trees: a module declaring one external
+    function with one argument per type is run through the real front end (current /repo tree)"""
+    from pathlib import Path
+
+    from vyper.compiler.input_bundle import FileInput
+    from vyper.compiler.phases import CompilerData
+    from vyper.compiler.settings import Settings
+    d = Decls()
+    names = [d.vy(t) for t in types]
+    src = d.text() + "\n@external\ndef f(" + ", ".join(f"x{i}: {n}" for i, n in enumerate(names)) + "):\n    pass\n"
+    cd = CompilerData(FileInput(0, Path("t.vy"), Path("t.vy"), src), settings=Settings(enable_decimals=True))
+    mt = cd.annotated_vyper_module._metadata["type"]
+    ft = [f for f in mt.exposed_functions if f.name == "f"][0]
+    return [a.typ for a in ft.arguments]
